@@ -15,12 +15,16 @@ def plan(tier, seed):
     if tier == "quick":
         return [
             dict(space="k3", lexmaps=ALL, wss=(" ",), alpha="ab ", nmax=4),
+            # a regex that runs across layout characters
+            dict(space="k3", win=(seed, 2), lexmaps=("M5",), wss=(" ",),
+                 alpha="ab ", nmax=4),
             # seed-rotated, fully enumerated window of the thorough domain
             dict(space="k4only", win=(seed, 40), lexmaps=("M0", "M3"),
                  wss=(" ",), alpha="ab ", nmax=4),
         ]
     return [
         dict(space="k3", lexmaps=ALL, wss=(" ", ""), alpha="ab ", nmax=5),
+        dict(space="k3", lexmaps=("M5",), wss=(" ",), alpha="ab ", nmax=4),
         dict(space="k4only", lexmaps=("M0",), wss=(" ",), alpha="ab ", nmax=5),
         dict(space="k4only", lexmaps=("M1", "M2", "M3", "M4"), wss=(" ",),
              alpha="ab ", nmax=4),
